@@ -133,7 +133,7 @@ fn check_sizes(w: &mut World, actor: &str, i: usize, plan: &Plan<DefiniteDescrip
 }
 
 /// Probe-time checks with the PSBT-derived satisfier: plan (provider = the satisfier itself) vs satisfier.
-pub fn check_plan_vs_satisfier(w: &mut World, actor: &str, psbt: &Psbt, i: usize, produced: &[Produced], ok: [bool; 4]) {
+pub fn check_plan_vs_satisfier(w: &mut World, actor: &str, psbt: &Psbt, i: usize, produced: &[Produced], ok: [bool; 6]) {
     let env = w.env.clone();
     let kind = env.inputs[i].kind;
     let text = env.inputs[i].spec.text.clone();
